@@ -7,6 +7,7 @@ CONSTANTS
   MaxParts = 2
   MinAsk = 30000
   MaxAsk = 100000
+  KeepAddrs = FALSE
 INIT Init
 NEXT Next
 VIEW View
